@@ -231,6 +231,7 @@ func init() {
 	}, func(c *Ctx) {
 		c.rulesC17()
 		c.rulesR4histsib()
+		c.rulesR4lastpass()
 		c.rulesC17ord()
 		c.rulesR3misc("C17")
 		c.rulesR3misc("C14") // C14.net: a history bound to the mirror records what the tracers are told
